@@ -206,22 +206,25 @@ def lit(v):
 _TR = {}
 
 
-def override_tr():
-    """One translated workbook: A1,B1 blank; C1..H1 = A1<op>B1; I1..N1 = B1<op>A1."""
-    if 'o' not in _TR:
-        cells = {}
+def override_tr(content=False):
+    """One translated workbook: A1,B1 blank (or, content=True, holding 5 and the text zz); C1..H1 = A1<op>B1; I1..N1 = B1<op>A1."""
+    key = 'oc' if content else 'o'
+    if key not in _TR:
+        cells = {'A1': 5, 'B1': 'zz'} if content else {}
         for i, op in enumerate(OPS):
             cells[wbk.a1(3 + i, 1)] = f'=A1{op}B1'
             cells[wbk.a1(9 + i, 1)] = f'=B1{op}A1'
         o = wbk.translate_model({'sheets': [{'title': 'S', 'cells': cells}]})
         if o[0] != 'value':
             raise env.HarnessError(f'C10 base workbook does not translate: {o}')
-        _TR['o'] = o[1]
-    return _TR['o']
+        _TR[key] = o[1]
+    return _TR[key]
 
 
-def eval_override(a, b):
-    tr = override_tr()
+def eval_override(a, b, content=False):
+    # content=True: the operands replace cells that hold something else in the workbook (a zero, an empty text or FALSE that is
+    # set must win over what the workbook holds, like every other value)
+    tr = override_tr(content)
     ex = tr.executor()
     cells = []
     if a != BLANK:
@@ -299,8 +302,8 @@ def run_case(case):
     a, b, via = case['a'], case['b'], case.get('via', 'override')
     if via == 'cell':  # a workbook cannot hold an empty text: it is a blank cell
         a, b = (BLANK if a == '' else a), (BLANK if b == '' else b)
-    if via == 'override':
-        ab, ba = eval_override(a, b)
+    if via in ('override', 'override-content'):
+        ab, ba = eval_override(a, b, via == 'override-content')
     else:
         (ab, ba), = eval_batch_cells([(a, b)], via)
     return judge(a, b, via, ab, ba)
@@ -331,9 +334,10 @@ def run_shard(spec, rec):
             if rec.out_of_time():
                 rec.exhaustive = False
                 break
-            ab, ba = eval_override(a, b)
-            rec.case({'a': a, 'b': b, 'via': 'override'}, nontrivial(a, b), tags(a, b) + ['via:override'], n=12)
-            for f in judge(a, b, 'override', ab, ba):
+            via_ = 'override-content' if BLANK not in (a, b) and (len(repr(a)) + len(repr(b))) % 2 else 'override'
+            ab, ba = eval_override(a, b, via_ == 'override-content')
+            rec.case({'a': a, 'b': b, 'via': via_}, nontrivial(a, b), tags(a, b) + ['via:' + via_], n=12)
+            for f in judge(a, b, via_, ab, ba):
                 rec.fail(**f)
     elif spec['kind'] == 'cells':
         import random
@@ -383,9 +387,10 @@ def run_shard(spec, rec):
             a, b = p
             a = 0.0 if isinstance(a, float) and a == 0 else a
             b = 0.0 if isinstance(b, float) and b == 0 else b
-            ab, ba = eval_override(a, b)
-            rec.case({'a': a, 'b': b, 'via': 'override'}, nontrivial(a, b), tags(a, b) + ['via:override-drawn'], n=12)
-            for f in judge(a, b, 'override', ab, ba):
+            via_ = 'override-content' if BLANK not in (a, b) and (len(repr(a)) + len(repr(b))) % 2 else 'override'
+            ab, ba = eval_override(a, b, via_ == 'override-content')
+            rec.case({'a': a, 'b': b, 'via': via_}, nontrivial(a, b), tags(a, b) + ['via:' + via_ + '-drawn'], n=12)
+            for f in judge(a, b, via_, ab, ba):
                 rec.fail(**f)
         hyp_run(pair, body, spec['examples'], ('c10', spec['shard']), rec)
 
